@@ -36,7 +36,11 @@ type wsLink struct {
 	v  int
 }
 
-func (l wsLink) sendFrame(b []byte) error { return l.pc.c.WriteMessage(websocket.BinaryMessage, b) }
+func (l wsLink) sendFrame(b []byte) error {
+	l.pc.wmu.Lock()
+	defer l.pc.wmu.Unlock()
+	return l.pc.c.WriteMessage(websocket.BinaryMessage, b)
+}
 func (l wsLink) nextRequest(d time.Duration) *RefFrame {
 	deadline := time.Now().Add(d)
 	for {
